@@ -180,6 +180,26 @@ impl Editor {
             .filter(|m| p.module(*m).inj.iter().any(|j| !j.is_error()))
             .collect();
         let outs: Vec<String> = ws.outputs().keys().cloned().collect();
+        // definitions that files other than their own use: edits of these are
+        // what the dependents propagation of the fragment cache is about
+        let used_mods: Vec<ItemId> = mods
+            .iter()
+            .copied()
+            .filter(|m| p.users_of(*m).iter().any(|u| p.file_of(*u).is_some() && p.file_of(*u) != p.file_of(*m)))
+            .collect();
+        let used_consts: Vec<(ItemId, usize)> = consts
+            .iter()
+            .copied()
+            .filter(|(q, _)| p.users_of(*q).iter().any(|u| p.file_of(*u).is_some() && p.file_of(*u) != p.file_of(*q)))
+            .collect();
+        let pick_mod = |d: &mut Draw, all: &[ItemId]| -> ItemId {
+            let pref: Vec<ItemId> = all.iter().copied().filter(|m| used_mods.contains(m)).collect();
+            if !pref.is_empty() && d.chance(4, 5) {
+                pref[d.below_usize(pref.len())]
+            } else {
+                all[d.below_usize(all.len())]
+            }
+        };
         for _ in 0..40 {
             // repairs first when something is broken
             if (err || dirty || !dead.is_empty()) && d.chance(2, 5) {
@@ -196,11 +216,11 @@ impl Editor {
             let k = d.weighted(&[
                 8, // 0 ChangeBody
                 3, // 1 ChangeConst
-                4, // 2 RenameConst
-                3, // 3 RenamePort
+                5, // 2 RenameConst
+                4, // 3 RenamePort
                 2, // 4 RenameParam
-                4, // 5 AddPort
-                3, // 6 ChangePortDefault
+                7, // 5 AddPort
+                5, // 6 ChangePortDefault
                 pol.generic_ops, // 7 ChangeGenericArg
                 3, // 8 AddUse
                 4, // 9 AddFile
@@ -241,7 +261,11 @@ impl Editor {
                     return EditOp::ChangeConst { pkg, idx };
                 }
                 2 if !consts.is_empty() => {
-                    let (pkg, idx) = consts[d.below_usize(consts.len())];
+                    let (pkg, idx) = if !used_consts.is_empty() && d.chance(4, 5) {
+                        used_consts[d.below_usize(used_consts.len())]
+                    } else {
+                        consts[d.below_usize(consts.len())]
+                    };
                     return EditOp::RenameConst {
                         pkg,
                         idx,
@@ -250,7 +274,7 @@ impl Editor {
                 }
                 3 if !mods.is_empty() => {
                     return EditOp::RenamePort {
-                        module: mods[d.below_usize(mods.len())],
+                        module: pick_mod(d, &mods),
                         consistent: d.chance(1, 2),
                     };
                 }
@@ -258,14 +282,14 @@ impl Editor {
                     let c: Vec<ItemId> = mods.iter().copied().filter(|m| p.module(*m).param.is_some()).collect();
                     if !c.is_empty() {
                         return EditOp::RenameParam {
-                            module: c[d.below_usize(c.len())],
+                            module: pick_mod(d, &c),
                             consistent: d.chance(1, 2),
                         };
                     }
                 }
                 5 if !mods.is_empty() => {
                     return EditOp::AddPort {
-                        module: mods[d.below_usize(mods.len())],
+                        module: pick_mod(d, &mods),
                         with_default: d.chance(1, 2),
                         consistent: d.chance(1, 3),
                     };
@@ -278,7 +302,7 @@ impl Editor {
                         .collect();
                     if !c.is_empty() {
                         return EditOp::ChangePortDefault {
-                            module: c[d.below_usize(c.len())],
+                            module: pick_mod(d, &c),
                         };
                     }
                 }
@@ -343,17 +367,8 @@ impl Editor {
                 }
                 14 if !mods.is_empty() => {
                     let module = mods[d.below_usize(mods.len())];
-                    let k = 0;
                     let m = p.module(module);
-                    let inj = match d.weighted(&[4, 2, 2, 2, 2, 1]) {
-                        0 => Inject::WarnUnused(k),
-                        1 => Inject::WarnShift(k),
-                        2 => Inject::WarnLogical(k),
-                        3 if m.clocked => Inject::WarnMissingReset(k),
-                        4 => Inject::WarnUncovered(k),
-                        5 => Inject::WarnStrAssign(k),
-                        _ => Inject::WarnUnused(k),
-                    };
+                    let inj = crate::genp::draw_warning(d, m.clocked);
                     return EditOp::InjectWarning { module, inj };
                 }
                 15 if !warn_mods.is_empty() => {
